@@ -244,11 +244,15 @@ class Formatter:
             over = json["over"]
             parts.append("OVER")
             window = []
-            if "partitionby" in over:
+            if isinstance(over, string_types):
+                # A NAMED WINDOW
+                parts.append(self.dispatch(over))
+                over = None
+            elif "partitionby" in over:
                 window.append(self.partitionby(over, precedence["window"]))
-            if "orderby" in over:
+            if over and "orderby" in over:
                 window.append(self.orderby(over, precedence["window"]))
-            if "range" in over:
+            if over and "range" in over:
 
                 def wordy(v):
                     if v < 0:
@@ -292,8 +296,9 @@ class Formatter:
                         window.append("AND")
                         window.extend(wordy(max))
 
-            window = " ".join(window)
-            parts.append(f"({window})")
+            if over is not None:
+                window = " ".join(window)
+                parts.append(f"({window})")
         if "name" in json:
             parts.extend(["AS", self.dispatch(json["name"])])
         if "tablesample" in json:
